@@ -1665,8 +1665,40 @@ PyObject * matrix_add(PyObject *self, PyObject *other)
   return matrix_add_generic(self, other, 0);
 }
 
+/* In-place addition (sub = 0) or subtraction (sub = 1) of a sparse matrix. */
+static PyObject *
+matrix_iadd_sparse(PyObject *self, PyObject *other, int sub)
+{
+  if (SP_ID(other) > MAT_ID(self) ||
+      (MAT_LGT(self) == 1 && SP_LGT(other) != 1))
+    PY_ERR_TYPE("invalid inplace operation");
+
+  if (SP_NROWS(other) != MAT_NROWS(self) ||
+      SP_NCOLS(other) != MAT_NCOLS(self))
+    PY_ERR_TYPE("incompatible dimensions");
+
+  int_t j, k, idx;
+  double *buf = (double *)MAT_BUF(self), sgn = (sub ? -1.0 : 1.0);
+  for (j=0; j<SP_NCOLS(other); j++) {
+    for (k=SP_COL(other)[j]; k<SP_COL(other)[j+1]; k++) {
+      idx = SP_ROW(other)[k] + j*SP_NROWS(other);
+      if (MAT_ID(self) == DOUBLE)
+        buf[idx] += sgn*SP_VALD(other)[k];
+      else if (SP_ID(other) == DOUBLE)
+        buf[2*idx] += sgn*SP_VALD(other)[k];
+      else {
+        buf[2*idx] += sgn*creal(SP_VALZ(other)[k]);
+        buf[2*idx+1] += sgn*cimag(SP_VALZ(other)[k]);
+      }
+    }
+  }
+  Py_INCREF(self);
+  return self;
+}
+
 static PyObject * matrix_iadd(PyObject *self,PyObject *other)
 {
+  if (SpMatrix_Check(other)) return matrix_iadd_sparse(self, other, 0);
   return matrix_add_generic(self, other, 1);
 }
 
@@ -1821,6 +1853,7 @@ PyObject * matrix_sub(PyObject *self, PyObject *other)
 
 static PyObject * matrix_isub(PyObject *self,PyObject *other)
 {
+  if (SpMatrix_Check(other)) return matrix_iadd_sparse(self, other, 1);
   return matrix_sub_generic(self, other, 1);
 }
 
